@@ -82,6 +82,9 @@ def run(d, n, props, tier="quick"):
     finally:
         sh(["git", "-C", "/repo", "checkout", "--", "."])
         sh(["git", "-C", "/repo", "clean", "-fdq"])
+        # bring the regenerated Lean data and the driver back to the unchanged tree
+        sh(["/verif/build/extract", "-repo", "/repo", "-out", "/verif/lean/SC/Gen"])
+        sh(["lake", "build", "driver"], cwd="/verif/lean")
     for p, (rc, line) in results.items():
         print("RUN %s patch%s on %s: rc=%d %s" % (os.path.basename(d), n, p, rc, line[:300]))
     return results
